@@ -56,9 +56,22 @@ def load_diff(api):
     return fn, options
 
 
-def check_pair(left, right, form, fn, options, acc):
-    case = {'left': left, 'right': right, 'form': form}
-    if form == 'array':
+def chunked(lines, rnd):
+    out = []
+    i = 0
+    while i < len(lines):
+        k = rnd.randint(1, 3)
+        out.append(rnd.choice(['\n', '\r\n']).join(lines[i:i + k]))
+        i += k
+    return out
+
+
+def check_pair(left, right, form, fn, options, acc, chunk_seed=0):
+    case = {'left': left, 'right': right, 'form': form, 'chunk_seed': chunk_seed}
+    if form == 'chunks':
+        r = random.Random(chunk_seed)
+        a, b = chunked(left, r), chunked(right, r)
+    elif form == 'array':
         a, b = list(left), list(right)
     else:
         eol = '\n' if form == 'lf' else '\r\n'
@@ -178,11 +191,9 @@ def run_shard(spec, acc):
                 right = [rnd.choice(words) for _ in range(rnd.randint(0, 40))]
             form = rnd.choice(['array', 'lf', 'crlf'])
             check_pair(left, right, form, fn, options, acc)
-            if form == 'array' and rnd.random() < 0.2:
-                # array elements may themselves hold several lines
-                a = ['\n'.join(left[:len(left) // 2]), '\n'.join(left[len(left) // 2:])] if len(left) >= 2 else None
-                if a is not None and all(x != '' for x in a):
-                    pass
+            if rnd.random() < 0.25 and len(left) >= 2 and len(right) >= 2:
+                # array elements may themselves hold several lines (LF or CRLF inside an element)
+                check_pair(left, right, 'chunks', fn, options, acc, chunk_seed=rnd.randint(0, 10 ** 6))
         acc.sample({'forms': ['array', 'lf', 'crlf'], 'max_lines': 40}, limit=1)
 
 
@@ -193,4 +204,4 @@ def replay(spec, acc):
         acc.note_inconclusive('finding-level replay entry')
         return
     fn, options = load_diff(api)
-    check_pair(case['left'], case['right'], case['form'], fn, options, acc)
+    check_pair(case['left'], case['right'], case['form'], fn, options, acc, chunk_seed=case.get('chunk_seed', 0))
